@@ -571,7 +571,7 @@ func c10Gen(r *rand.Rand, tier string) []spec.Case {
 	bufs := []int{16, 64, 4096, 0}
 	n := 700
 	if tier == "thorough" {
-		n = 12000
+		n = 60000
 	}
 	for i := 0; i < n; i++ {
 		bs := bufs[i%len(bufs)]
